@@ -99,7 +99,7 @@ Definition check_fold_nn := mismatches fold_nn_ok.
    whenever it decides by a special case *)
 Definition pow_ok (c : Z * Z * Z) : bool :=
   let '(xb, yb, rb) := c in
-  match go_pow_special (num_of_bits xb) (num_of_bits yb) with
+  match fold_pow (num_of_bits xb) (num_of_bits yb) with
   | Some r => num_same r (num_of_bits rb)
   | None => true
   end.
